@@ -400,7 +400,11 @@ pub fn judge_list(items: &[Vec<u8>], suffix: &[u8], dec: DecType, cx: &mut Cx) {
         (true, None) => cx.push(viol("C13", format!("C13/list-of-valid-records-rejected/{d}"),
             format!("{} records, list of {} bytes: {}", items.len(), list.len(), hex(&buf)))),
         (false, Some(_)) => cx.push(viol("C13", format!("C13/list-with-invalid-record-accepted/{d}"), hex(&buf))),
-        (true, Some(vs)) => {
+        (true, Some((vs, re))) => {
+            if re != list {
+                cx.push(viol("C04", format!("C04/list-reencode-differs/{d}"),
+                    format!("Vec<Enr> decoded from {} re-encodes to {}", hex(&list), hex(&re))));
+            }
             if vs.len() != items.len() {
                 cx.push(viol("C13", format!("C13/list-length/{d}"), format!("{} records in, {} out", items.len(), vs.len())));
             } else {
